@@ -131,6 +131,19 @@ def _visit_assertion(ix, rep):
            and 'var_subspec_dict[' in ast.unparse(cfg.stmt[n].targets[0])]
     app = [n for n in cfg.nodes() if cfg.stmt[n] is not None and isinstance(cfg.stmt[n], ast.Expr)
            and ast.unparse(cfg.stmt[n]).replace(' ', '').startswith('self.specs.append(')]
+    # the same step spelled `self.specs += [out]` / `self.specs.extend([out])`: brought to the append form
+    for n in cfg.nodes():
+        st = cfg.stmt[n]
+        one = None
+        if isinstance(st, ast.AugAssign) and isinstance(st.op, ast.Add) and ast.unparse(st.target) == 'self.specs' and isinstance(st.value, ast.List) and len(st.value.elts) == 1:
+            one = st.value.elts[0]
+        if isinstance(st, ast.Expr) and isinstance(st.value, ast.Call) and ast.unparse(st.value.func) == 'self.specs.extend' and len(st.value.args) == 1 \
+                and isinstance(st.value.args[0], ast.List) and len(st.value.args[0].elts) == 1:
+            one = st.value.args[0].elts[0]
+        if one is not None:
+            cfg.stmt[n] = ast.copy_location(ast.Expr(value=ast.Call(func=ast.Attribute(value=ast.Attribute(value=ast.Name(id='self', ctx=ast.Load()), attr='specs', ctx=ast.Load()),
+                                                                                    attr='append', ctx=ast.Load()), args=[one], keywords=[])), st)
+            app.append(n)
     if not reg or not app:
         rep.fail('R-INLINE', f.module.rel, f.qual, 'register+append', 'visitAssertion does not both register the name in var_subspec_dict and append to specs', f.node.lineno)
         return
@@ -179,6 +192,9 @@ def _check_subspec_separator(ix, rep, rule='R-INLINE'):
     for st in f.node.body:
         if isinstance(st, ast.Assign) and ast.unparse(st.targets[0]) == 'self.modular_spec':
             target = st
+        if isinstance(st, ast.AugAssign) and isinstance(st.op, ast.Add) and ast.unparse(st.target) == 'self.modular_spec':
+            # self.modular_spec += X   is   self.modular_spec = self.modular_spec + X
+            target = ast.copy_location(ast.Assign(targets=[st.target], value=ast.BinOp(left=st.target, op=ast.Add(), right=st.value)), st)
     if target is None:
         raise AnalysisError('%s: no assignment to self.modular_spec' % f.where)
 
